@@ -229,6 +229,8 @@ func nodeText(n ast.Node) string {
 			r = append(r, exprString(e))
 		}
 		return strings.Join(l, ", ") + " " + x.Tok.String() + " " + strings.Join(r, ", ")
+	case *ast.IncDecStmt:
+		return exprString(x.X) + x.Tok.String()
 	case *ast.ReturnStmt:
 		var r []string
 		for _, e := range x.Results {
